@@ -11,8 +11,9 @@ import (
 //
 // case:        (period (op ...))     op = (0 es) AddElementaryStream  (1 pid) RemoveElementaryStream  (2 pid) SetPCRPID
 //                                         (3) WriteTables  (4 muxerdata) WriteData  (5 packet) WritePacket
-// observation: per call (code n bytes state): code -1 ok / error code / -2 panic; n the returned int; bytes what the
-//              writer accepted during the call; state = VerifState() after the call (see coq/Extract/RunMux.v).
+// observation: per call (code n bytes state writes): code -1 ok / error code / -2 panic; n the returned int; bytes what the
+//              writer accepted during the call; state = VerifState() after the call (see coq/Extract/RunMux.v); writes = the
+//              length of every io.Writer.Write call of the call, in order (the structure C18 injects failures into).
 
 const (
 	opAdd = iota
@@ -87,6 +88,7 @@ type muxCall struct {
 	n     int
 	bytes []byte
 	st    astits.VerifMuxerState
+	lens  []int // length of every io.Writer.Write call made during the call
 }
 
 // runMux runs a history on a fresh Muxer writing into a sinkWriter that never fails.
@@ -96,6 +98,7 @@ func runMux(period int, ops []muxOp) []muxCall {
 	calls := make([]muxCall, 0, len(ops))
 	for _, o := range ops {
 		before := len(w.accepted)
+		callsBefore := len(w.lens)
 		c := muxCall{}
 		func() {
 			defer func() {
@@ -121,6 +124,7 @@ func runMux(period int, ops []muxOp) []muxCall {
 			c.code = errCode(err)
 		}()
 		c.bytes = append([]byte{}, w.accepted[before:]...)
+		c.lens = append([]int{}, w.lens[callsBefore:]...)
 		c.st = m.VerifState()
 		calls = append(calls, c)
 	}
@@ -151,7 +155,7 @@ func muxStateTok(s astits.VerifMuxerState) Tok {
 func muxObservation(calls []muxCall) Tok {
 	ts := make([]Tok, len(calls))
 	for i, c := range calls {
-		ts[i] = L(I(c.code), I(int64(c.n)), B(c.bytes), muxStateTok(c.st))
+		ts[i] = L(I(c.code), I(int64(c.n)), B(c.bytes), muxStateTok(c.st), intsTok(c.lens))
 	}
 	return L(ts...)
 }
